@@ -23,8 +23,8 @@ def _LU(M):
     """
     LU,P = tn.linalg.lu_factor(M)
     P,L,U = tn.lu_unpack(LU,P) # P transpose or not transpose?
-    P = P@tn.reshape(tn.arange(P.shape[1],dtype=P.dtype,device=P.device),[-1,1])
-    # P = tn.reshape(tn.arange(P.shape[1],dtype=P.dtype,device=P.device),[1,-1]) @ P
+    # M = P L U: row k of P^T M (the k-th pivot row) is row (arange @ P)[k] of M; P @ arange is the inverse permutation
+    P = tn.reshape(tn.arange(P.shape[1],dtype=P.dtype,device=P.device),[1,-1]) @ P
     
     return L, U, tn.squeeze(P).to(tn.int64)
  
